@@ -301,6 +301,12 @@ func directoryListing(files []os.FileInfo, canGoUp bool, urlPath string, config 
 			}
 		}
 
+		// hidden entries are not part of the listing: they must not show up
+		// in NumDirs / NumFiles either (the counters would betray them)
+		if config.Fs.IsHidden(f) {
+			continue
+		}
+
 		isDir := f.IsDir() || isSymlinkTargetDir(f, urlPath, config)
 
 		if isDir {
@@ -308,10 +314,6 @@ func directoryListing(files []os.FileInfo, canGoUp bool, urlPath string, config 
 			dirCount++
 		} else {
 			fileCount++
-		}
-
-		if config.Fs.IsHidden(f) {
-			continue
 		}
 
 		u := url.URL{Path: "./" + name} // prepend with "./" to fix paths with ':' in the name
